@@ -10,7 +10,6 @@ import (
 	vs "github.com/modelcontextprotocol/go-sdk/internal/vsched"
 )
 
-
 type e1Pair struct {
 	s  *Server
 	c  *Client
